@@ -8,6 +8,7 @@ import (
 	"math"
 	"math/rand"
 	"os"
+	"reflect"
 	"strconv"
 	"strings"
 
@@ -108,7 +109,7 @@ func deepBlockEq(a, b bcl.Block) bool {
 				return false
 			}
 		default:
-			if _, isBlk := w.(bcl.Block); isBlk || v != w {
+			if _, isBlk := w.(bcl.Block); isBlk || !reflect.DeepEqual(v, w) {
 				return false
 			}
 		}
